@@ -1,4 +1,193 @@
-import Physt.Theorems.C01
+import Physt.Proofs.Paths
+import Mathlib.Tactic.FieldSimp
+import Mathlib.Tactic.Ring
+/-!
+# C14 — statistics are those of the raw data entered, not of the bins
+-/
 namespace Physt
-theorem C14_placeholder : True := trivial
+open H1 Stats
+
+/-- the statistics of a data set, without the median (which only construction provides) -/
+def rawStats (data : List Pt) : Stats := statsOf data false none
+
+def sumWV (d : List Pt) : Rat := (d.map fun p => p.1 * p.2).sum
+def sumWV2 (d : List Pt) : Rat := (d.map fun p => p.1 * p.1 * p.2).sum
+
+def fmin (a b : Rat) : Rat := if b < a then b else a
+def fmax (a b : Rat) : Rat := if a < b then b else a
+
+theorem fmin_assoc (a b c : Rat) : fmin (fmin a b) c = fmin a (fmin b c) := by
+  unfold fmin
+  by_cases h1 : b < a <;> by_cases h2 : c < b <;> by_cases h3 : c < a <;> simp [h1, h2, h3] <;> linarith
+
+theorem fmax_assoc (a b c : Rat) : fmax (fmax a b) c = fmax a (fmax b c) := by
+  unfold fmax
+  by_cases h1 : a < b <;> by_cases h2 : b < c <;> by_cases h3 : a < c <;> simp [h1, h2, h3] <;> linarith
+
+theorem foldl_fmin (ys : List Rat) (a y : Rat) : ys.foldl fmin (fmin a y) = fmin a (ys.foldl fmin y) := by
+  induction ys generalizing a y with
+  | nil => rfl
+  | cons z zs ih =>
+    simp only [List.foldl_cons]
+    rw [ih (fmin a y) z, ih y z, fmin_assoc]
+
+theorem foldl_fmax (ys : List Rat) (a y : Rat) : ys.foldl fmax (fmax a y) = fmax a (ys.foldl fmax y) := by
+  induction ys generalizing a y with
+  | nil => rfl
+  | cons z zs ih =>
+    simp only [List.foldl_cons]
+    rw [ih (fmax a y) z, ih y z, fmax_assoc]
+
+theorem listMin_append (a b : List Rat) :
+    Grid.listMin (a ++ b) = minO (Grid.listMin a) (Grid.listMin b) := by
+  cases a with
+  | nil => cases b <;> rfl
+  | cons x xs =>
+    cases b with
+    | nil => simp [Grid.listMin, minO]
+    | cons y ys =>
+      simp only [List.cons_append, Grid.listMin, List.foldl_append, List.foldl_cons, minO]
+      show some (List.foldl fmin (fmin (List.foldl fmin x xs) y) ys) = some (fmin (xs.foldl fmin x) (ys.foldl fmin y))
+      rw [foldl_fmin]
+
+theorem listMax_append (a b : List Rat) :
+    Grid.listMax (a ++ b) = maxO (Grid.listMax a) (Grid.listMax b) := by
+  cases a with
+  | nil => cases b <;> rfl
+  | cons x xs =>
+    cases b with
+    | nil => simp [Grid.listMax, maxO]
+    | cons y ys =>
+      simp only [List.cons_append, Grid.listMax, List.foldl_append, List.foldl_cons, maxO]
+      show some (List.foldl fmax (fmax (List.foldl fmax x xs) y) ys) = some (fmax (xs.foldl fmax x) (ys.foldl fmax y))
+      rw [foldl_fmax]
+
+/-- **Accumulation is a homomorphism.** The statistics of two data sets entered one after the
+    other (two `fill_n` chunks, two added histograms) are the statistics of the combined data:
+    sums, sums of squares and weights add, minimum and maximum combine. -/
+theorem C14_hom (a b : List Pt) : (rawStats a).add (rawStats b) = rawStats (a ++ b) := by
+  cases a with
+  | nil =>
+    cases b with
+    | nil => simp [rawStats, statsOf, Stats.add, Stats.empty, minO, maxO]
+    | cons y ys => simp [rawStats, statsOf, Stats.add, Stats.empty, minO, maxO, wsum, Grid.listMin, Grid.listMax]
+  | cons x xs =>
+    cases b with
+    | nil => simp [rawStats, statsOf, Stats.add, Stats.empty, minO, maxO, wsum, Grid.listMin, Grid.listMax]
+    | cons y ys =>
+      simp only [rawStats, statsOf, Stats.add, Bool.and_self, if_true, List.cons_append]
+      have hmin := listMin_append ((x :: xs).map (·.1)) ((y :: ys).map (·.1))
+      have hmax := listMax_append ((x :: xs).map (·.1)) ((y :: ys).map (·.1))
+      simp only [List.map_cons, List.cons_append, ← List.map_append] at hmin hmax
+      simp only [List.map_cons, List.map_append, List.sum_cons, List.sum_append, wsum, hmin, hmax]
+      simp only [List.map_cons, List.sum_cons, Bool.false_eq_true, if_false]
+      congr 1 <;> ring
+
+/-- the median is the only thing `statsOf` adds to `rawStats` -/
+theorem C14_construct_raw (d : List Pt) (e : Bool) (m : Option Rat) :
+    { statsOf d e m with median := none } = rawStats d := by
+  cases d <;> simp [rawStats, statsOf, Stats.empty]
+
+/-- **`fill` accumulates one point**: the same as adding the statistics of a one-point data set. -/
+theorem C14_fill (s : Stats) (hs : s.valid = true) (v w : Rat) :
+    s.addPoint v w = s.add (rawStats [(v, w)]) := by
+  simp only [addPoint, hs, if_true, Stats.add, rawStats, statsOf, Bool.and_self, List.map_cons, List.map_nil,
+    List.sum_cons, List.sum_nil, Grid.listMin, Grid.listMax, List.foldl_nil, wsum, add_zero]
+  congr 1 <;> ring
+
+/-- weighted moments in terms of the raw data -/
+theorem C14_sums (d : List Pt) (hne : d ≠ []) :
+    (rawStats d).sum = sumWV d ∧ (rawStats d).sum2 = sumWV2 d ∧ (rawStats d).weight = wsum d ∧
+    (rawStats d).min = Grid.listMin (d.map (·.1)) ∧ (rawStats d).max = Grid.listMax (d.map (·.1)) := by
+  cases d with
+  | nil => exact (hne rfl).elim
+  | cons x xs => simp [rawStats, statsOf, sumWV, sumWV2]
+
+theorem sum_sq_dev (d : List Pt) (μ : Rat) :
+    (d.map fun p => p.2 * (p.1 - μ) ^ 2).sum = sumWV2 d - 2 * μ * sumWV d + μ ^ 2 * wsum d := by
+  induction d with
+  | nil => simp [sumWV2, sumWV, wsum]
+  | cons p ps ih =>
+    simp only [List.map_cons, List.sum_cons, sumWV2, sumWV, wsum] at ih ⊢
+    rw [ih]; ring
+
+/-- **Moments.** `mean()` is the weighted mean `Σ w·v / Σ w` and `variance()` the weighted
+    population variance `Σ w·(v − mean)² / Σ w` of the raw data (total weight > 0). -/
+theorem C14_moments (d : List Pt) (hne : d ≠ []) (hw : 0 < wsum d) :
+    (rawStats d).mean = some (sumWV d / wsum d) ∧
+    (rawStats d).variance = some ((d.map fun p => p.2 * (p.1 - sumWV d / wsum d) ^ 2).sum / wsum d) := by
+  obtain ⟨h1, h2, h3, _, _⟩ := C14_sums d hne
+  have hv : (rawStats d).valid = true := by cases d <;> simp [rawStats, statsOf, Stats.empty]
+  have hw' : wsum d ≠ 0 := ne_of_gt hw
+  constructor
+  · simp [Stats.mean, hv, h1, h3, hw']
+  · simp only [Stats.variance, hv, h1, h2, h3, hw, decide_true, Bool.and_self, if_true]
+    rw [sum_sq_dev]
+    congr 1
+    field_simp
+    ring
+
+/-- **Positive rescaling.** Scaling by `c ≠ 0` multiplies the weight by `c` and leaves mean,
+    minimum and maximum unchanged; for `c > 0` the variance is unchanged too. -/
+theorem C14_scale (s : Stats) (c : Rat) (hc : 0 < c) (hv : s.valid = true) :
+    (s.scale c).mean = s.mean ∧ (s.scale c).variance = s.variance ∧
+    (s.scale c).min = s.min ∧ (s.scale c).max = s.max ∧ (s.scale c).weight = s.weight * c := by
+  · have hc' : c ≠ 0 := ne_of_gt hc
+    refine ⟨?_, ?_, by simp [Stats.scale, hv], by simp [Stats.scale, hv], by simp [Stats.scale, hv]⟩
+    · simp only [Stats.mean, Stats.scale, hv, if_true, Bool.true_and]
+      by_cases hw : s.weight = 0
+      · simp [hw]
+      · have : s.weight * c ≠ 0 := mul_ne_zero hw hc'
+        simp only [bne_iff_ne, ne_eq, hw, not_false_eq_true, this, if_true]
+        congr 1
+        field_simp
+    · simp only [Stats.variance, Stats.scale, hv, if_true, Bool.true_and]
+      by_cases hw : 0 < s.weight
+      · have : 0 < s.weight * c := mul_pos hw hc
+        have hw' : s.weight ≠ 0 := ne_of_gt hw
+        simp only [hw, this, decide_true, if_true]
+        congr 1
+        field_simp
+      · have : ¬ 0 < s.weight * c := by
+          intro h
+          have : 0 < s.weight := by
+            by_contra hn
+            have : s.weight ≤ 0 := not_lt.mp hn
+            nlinarith
+          exact hw this
+        simp [hw, this]
+
+/-- **Invalid, never wrong.** Once the statistics cannot be maintained (array arithmetic,
+    subtraction, bare frequencies: `INVALID_STATISTICS`) they stay invalid under further
+    accumulation and scaling, and every derived number reads NaN. -/
+theorem C14_invalid (s : Stats) (c : Rat) (v w : Rat) :
+    Stats.invalid.add s = Stats.invalid ∧ s.add Stats.invalid = Stats.invalid ∧
+    Stats.invalid.scale c = Stats.invalid ∧ Stats.invalid.addPoint v w = Stats.invalid ∧
+    Stats.invalid.mean = none ∧ Stats.invalid.variance = none := by
+  simp [Stats.add, Stats.invalid, Stats.scale, Stats.addPoint, Stats.mean, Stats.variance]
+
+/-- an empty histogram reports weight 0 and a NaN mean -/
+theorem C14_empty : Stats.empty.weight = 0 ∧ Stats.empty.mean = none ∧ Stats.empty.variance = none := by
+  simp [Stats.empty, Stats.mean, Stats.variance]
+
+/-- subtraction (`isub`) and construction from bare arrays (`ofArrays`) leave invalid statistics -/
+theorem C14_invalidated (fo : FloatOps) (h o r : H1) (hr : h.isub fo o = .ok r) : r.stats = Stats.invalid := by
+  unfold isub at hr
+  simp only [bind, Except.bind] at hr
+  repeat (split at hr <;> try contradiction)
+  all_goals (first | (cases hr; rfl) | skip)
+
+/-- **Median** of an unweighted construction: the middle order statistic (mean of the two middle
+    ones for an even count). -/
+theorem C14_median_example :
+    medianOf [3, 1, 2] = some 2 ∧ medianOf [4, 1, 3, 2] = some (5 / 2) ∧ medianOf [] = none := by
+  decide +kernel
+
+/-! Non-vacuity -/
+example : (rawStats [(1, 2), (3, 1 / 2)]).mean = some (7 / 5) := by decide +kernel
+example : (0 : Rat) < wsum [(1, 2), (3, 1 / 2)] ∧ ([(1, 2), (3, 1 / 2)] : List Pt) ≠ [] := by
+  constructor
+  · decide +kernel
+  · simp
+
 end Physt
